@@ -579,6 +579,101 @@ func TestC26(t *testing.T) {
 		r.Case(fmt.Sprintf("closewrite-held|%v", alertAt >= 0), true)
 	}
 	r.Floor("closewrite_held_runs", int64(mon.Pick(30, 700)))
+	// A RESUMED TLS 1.2 handshake (the client speaks last: ChangeCipherSpec + Finished) with
+	// that last flight held back on the transport, next to other callers: whoever is told the
+	// handshake is over may write at once, and what Write accepted must reach the server in
+	// order, after the client's Finished (also a race-detector target: Write vs the flush).
+	for i := 0; i < mon.Pick(40, 800); i++ {
+		rg := Sub("C26resumed12", i)
+		id := ids[rg.Intn(len(ids))]
+		scfg := peer.ServerConfig()
+		scfg.MaxVersion = tls.VersionTLS12
+		cache := tls.NewLRUClientSessionCache(4)
+		mkCfg := func() *tls.Config {
+			ccfg := peer.ClientConfig("example.test")
+			ccfg.OmitEmptyPsk = true
+			ccfg.ClientSessionCache = cache
+			ccfg.PreferSkipResumptionOnNilExtension = true
+			return ccfg
+		}
+		if w := peer.Run(mkCfg(), id, scfg, peer.Opts{}); !w.OK() {
+			continue
+		}
+		c, s, tap := peer.Pipe()
+		dl := time.Now().Add(20 * time.Second)
+		c.SetDeadline(dl)
+		s.SetDeadline(dl)
+		hold := time.Duration(300+rg.Intn(2500)) * time.Microsecond
+		inFlight := make(chan struct{})
+		hsDone := make(chan struct{})
+		var once sync.Once
+		tap.BeforeWrite = func(dir string, p []byte) {
+			if dir == "c2s" && len(p) > 0 && p[0] == 20 { // the flight that starts with ChangeCipherSpec
+				once.Do(func() { close(inFlight) }) // a caller arrives exactly now
+				time.Sleep(hold)
+			}
+		}
+		srv := tls.Server(s, scfg)
+		got := make(chan []byte, 1)
+		go func() {
+			buf := make([]byte, 12)
+			if srv.Handshake() != nil {
+				got <- nil
+				return
+			}
+			n, _ := io.ReadFull(srv, buf)
+			got <- buf[:n]
+		}()
+		u := tls.UClient(c, mkCfg(), id)
+		var wg sync.WaitGroup
+		var wrote atomic.Int64
+		delays := []time.Duration{0, time.Duration(rg.Intn(200)) * time.Microsecond, time.Duration(rg.Intn(200)) * time.Microsecond} // drawn here: rg is not for the goroutines
+		for k := 0; k < 3; k++ {
+			wg.Add(1)
+			go func(k int) {
+				defer wg.Done()
+				if k == 1 {
+					select {
+					case <-inFlight:
+					case <-hsDone: // not a resumption (or over already): no such moment
+					}
+				} else if k > 0 {
+					time.Sleep(delays[k])
+				}
+				err := u.Handshake()
+				if k == 0 {
+					close(hsDone)
+				}
+				if err != nil {
+					return
+				}
+				if k == 1 {
+					if n, err := u.Write([]byte("ping-ping-12")); err == nil && n == 12 {
+						wrote.Add(1)
+					}
+				}
+			}(k)
+		}
+		wg.Wait()
+		resumed := u.ConnectionState().DidResume
+		var data []byte
+		select {
+		case data = <-got:
+		case <-time.After(10 * time.Second):
+		}
+		if resumed {
+			r.Count("resumed12_runs", 1)
+		}
+		if wrote.Load() == 1 && string(data) != "ping-ping-12" {
+			r.Violation(map[string]string{"scenario": "resumed12-held-flight", "kind": "accepted_write_not_delivered"},
+				fmt.Sprintf("%s (resumed=%v): Handshake returned nil and Write accepted 12 bytes, but the server received %q", id.Str(), resumed, data), map[string]any{"case": i, "id": id.Str()})
+		}
+		u.Close()
+		c.Close()
+		s.Close()
+		r.Case(fmt.Sprintf("resumed12-held-flight|%v", resumed), true)
+	}
+	r.Floor("resumed12_runs", int64(mon.Pick(15, 300)))
 	r.Count("distinct_interleavings", int64(len(sigs)))
 	r.Floor("handshakes_completed", int64(n/8))
 	r.Floor("hello_requests_sent", int64(n/15))
